@@ -36,13 +36,23 @@ func checkC09(c *Ctx) {
 		c.Unresolved("C09.1", "VotingMachine", "anchor missing")
 		return
 	}
+	// the function that records the vote: verifyCert itself, or the private helper of its package that holds
+	// its locked part (which then starts with the facts established at its call site: calling-context facts)
+	vcRoot := vc
 	fl := NewFlow(p, vc)
 	var upd *ssa.MapUpdate
-	eachInstr(vc, func(in ssa.Instruction) {
-		if mu, ok := in.(*ssa.MapUpdate); ok && fl.K.Key(mu.Map) == kVotes {
-			upd = mu
+	for _, hf := range helperClosure(p, vcRoot, 2) {
+		hfl := fl
+		if hf != vcRoot {
+			hfl = NewFlow(p, hf)
 		}
-	})
+		eachInstr(hf, func(in ssa.Instruction) {
+			if mu, ok := in.(*ssa.MapUpdate); ok && hfl.K.Key(mu.Map) == kVotes && upd == nil {
+				upd = mu
+				vc, fl = hf, hfl
+			}
+		})
+	}
 	ws := c.whoMayWrite("C09.9", p.Field("protocol/votingmachine", "VotingMachine", "verifiedVotes"), "VotingMachine.verifiedVotes", "(*hs/protocol/votingmachine.VotingMachine).verifyCert")
 	_ = ws
 	if upd == nil {
@@ -145,7 +155,7 @@ func checkC09(c *Ctx) {
 	n := 0
 	eachInstr(cv, func(in ssa.Instruction) {
 		ci, ok := in.(ssa.CallInstruction)
-		if !ok || !calleeIs(ci.Common(), vc) {
+		if !ok || !calleeIs(ci.Common(), vcRoot) {
 			return
 		}
 		n++
@@ -305,18 +315,21 @@ func c09Kauri(c *Ctx) {
 		})
 	}
 	n := 0
-	eachInstr(mc, func(in ssa.Instruction) {
+	isAggStore := func(in ssa.Instruction) bool {
 		st, ok := in.(*ssa.Store)
 		if !ok {
-			return
+			return false
 		}
 		fa, ok := st.Addr.(*ssa.FieldAddr)
-		if !ok || fieldName(fa.X.Type(), fa.Field) != kKauri+"aggContrib" {
-			return
-		}
+		return ok && fieldName(fa.X.Type(), fa.Field) == kKauri+"aggContrib"
+	}
+	// in mergeContribution or in the private helpers of its package it was split into
+	for _, d := range deepInstrs(fl, isAggStore, 0) {
+		in := d.Instr
+		st := in.(*ssa.Store)
 		n++
-		facts := fl.At(in)
-		val := fl.K.Key(st.Val)
+		facts := d.Facts
+		val := d.Key(st.Val)
 		okV := verified(facts)
 		c.Check(okV, "C09.7/verified", "mergeContribution: aggContrib := "+shortVal(val), p.InstrPos(in),
 			"aggContrib is updated only after auth.Verify(contribution, block.ToBytes()) == nil for the block of the current aggregation",
@@ -326,7 +339,7 @@ func c09Kauri(c *Ctx) {
 			c.Check(okM, "C09.7/mergeable", "mergeContribution: combine only mergeable contributions", p.InstrPos(in),
 				"the combined signature is stored only after CanMergeContributions(contribution, aggContrib) == nil", "combine-store without the mergeability check; value "+val)
 		}
-	})
+	}
 	if n == 0 {
 		c.Unresolved("C09.7", "mergeContribution", "no store to aggContrib")
 	}
@@ -349,13 +362,17 @@ func c09Kauri(c *Ctx) {
 	}
 	// emission
 	emitted := false
+	nvSites := map[ssa.Instruction]Emit{}
 	for _, e := range p.constructSites(namedType(p, "", "NewViewMsg")) {
-		if e.Fn != mc || e.Alloc == nil {
-			continue
+		if e.Alloc != nil {
+			nvSites[e.Instr] = e
 		}
+	}
+	for _, d := range deepInstrs(fl, func(in ssa.Instruction) bool { _, ok := nvSites[in]; return ok }, 0) {
+		e := nvSites[d.Instr]
 		emitted = true
-		facts := fl.At(e.Instr)
-		si := fl.K.Key(complitField(e.Alloc, "SyncInfo"))
+		facts := d.Facts
+		si := d.Key(complitField(e.Alloc, "SyncInfo"))
 		okT := hasCmp(facts, "<=", contains(kQuorumSize), func(k string) bool { return strings.HasPrefix(k, kPartLen) && strings.Contains(k, "Base).Combine(") })
 		okQ := strings.HasPrefix(si, "hs.NewSyncInfoWith[hs.QuorumCert](hs.NewQuorumCert(p0->"+kKauri+"aggContrib, p0->"+kKauri+"currentView, p0->"+kKauri+"blockHash)")
 		c.Check(okT, "C09.7/threshold", "mergeContribution: emit at quorum", p.InstrPos(e.Instr),
